@@ -421,7 +421,7 @@ def run_case(case, col, tmp, verbose=False):
         n = case["n"]
         s = Screen(
             treatment_names=np.array([[f"t{i:06d}"] for i in range(n)], dtype=str), treatment_doses=np.array([[1.0 + (i % 3)] for i in range(n)]),
-            sample_names=np.array([f"s{(i * 7) % n:06d}" for i in range(n)], dtype=str), plate_names=np.array([f"p{i % 3}" for i in range(n)], dtype=str),
+            sample_names=np.array([f"s{n - 1 - i:06d}" for i in range(n)], dtype=str), plate_names=np.array([f"p{i % 3}" for i in range(n)], dtype=str),
             observations=np.array([0.001 * (i % 997) for i in range(n)]), observation_mask=np.array([i % 3 != 1 for i in range(n)]), control_treatment_name=control,
         )
         round_trip(s, cycles, col, case, "manyids", tmp, verbose)
